@@ -300,6 +300,10 @@ pub fn classify(e: &Event, seqs: &mut SeqMap) -> Option<Value> {
     } else if let Some(r) = rel.strip_prefix("hnsw_indexes/") {
         let (name, obj) = r.split_once('/')?;
         o.insert("idx".into(), json!(name));
+        // node blobs n_<id>.cbor: the id, so that the deletion of a LIVE node's blob can be refused
+        if let Some(id) = obj.strip_prefix("n_").and_then(|f| f.strip_suffix(".cbor")).and_then(|f| f.parse::<u64>().ok()) {
+            o.insert("node".into(), json!(id));
+        }
         let cls = if obj == "ids.cbor" && kind == "put" {
             if e.mode == "update" { "idx_commit" } else { "idx_init" }
         } else {
